@@ -74,6 +74,9 @@ func nonNilShape(t *Term) bool {
 }
 
 func (x *Explorer) Eq(a, b *Term) *Term {
+	if isIntegerTerm(a) && isIntegerTerm(b) {
+		a, b = x.stripWiden(a), x.stripWiden(b)
+	}
 	if a == b {
 		// identical symbolic value (NaN aside, irrelevant here)
 		return x.T.Bool(true)
@@ -113,7 +116,30 @@ func (x *Explorer) Eq(a, b *Term) *Term {
 	return x.T.mk(Term{Kind: KEq, Args: []*Term{a, b}, Type: types.Typ[types.Bool]})
 }
 
+// stripWiden removes value-preserving integer conversions (widening, or same
+// width and signedness) so that int64(len(b)) and len(b) compare as one term.
+func (x *Explorer) stripWiden(t *Term) *Term {
+	for t.Kind == KConv {
+		b1, u1, ok1 := intBits(t.Args[0].Type, x.P.Pkg.TypesSizes)
+		b2, u2, ok2 := intBits(t.Type, x.P.Pkg.TypesSizes)
+		if !ok1 || !ok2 {
+			if t.Args[0].Type == nil && ok2 && (t.Args[0].Kind == KLen || t.Args[0].Kind == KCap) && b2 >= 32 && !u2 {
+				t = t.Args[0]
+				continue
+			}
+			return t
+		}
+		if (b2 > b1 && (u1 == u2 || u1)) || (b2 == b1 && u1 == u2) {
+			t = t.Args[0]
+			continue
+		}
+		return t
+	}
+	return t
+}
+
 func (x *Explorer) Lt(a, b *Term) *Term {
+	a, b = x.stripWiden(a), x.stripWiden(b)
 	if a == b {
 		return x.T.Bool(false)
 	}
@@ -180,6 +206,48 @@ func (x *Explorer) lowerS(t *Term) (int64, bool) {
 			}
 		}
 	case KBin:
+		if t.Op == token.REM {
+			if c, ok := t.Args[1].Int64(); ok && c > 0 {
+				if lo, has := x.lower(t.Args[0]); has && lo >= 0 {
+					return 0, true
+				}
+				return -(c - 1), true
+			}
+		}
+		if (t.Op == token.QUO || t.Op == token.MUL) && !isUnsigned(t.Type) {
+			if c, ok := t.Args[1].Int64(); ok && c > 0 {
+				if lo, has := x.lower(t.Args[0]); has && lo >= 0 {
+					if t.Op == token.QUO {
+						return lo / c, true
+					}
+					return lo * c, true
+				}
+			}
+		}
+		if t.Op == token.SUB && !isUnsigned(t.Type) {
+			if lo, has := x.lower(t.Args[0]); has {
+				if hi, has2 := x.upper(t.Args[1]); has2 {
+					return lo - hi, true
+				}
+			}
+		}
+		if t.Op == token.ADD || t.Op == token.SUB {
+			if c, ok := t.Args[1].Int64(); ok {
+				if lo, has := x.lower(t.Args[0]); has && !isUnsigned(t.Type) {
+					if t.Op == token.ADD {
+						return lo + c, true
+					}
+					return lo - c, true
+				}
+			}
+			if t.Op == token.ADD {
+				l1, ok1 := x.lower(t.Args[0])
+				l2, ok2 := x.lower(t.Args[1])
+				if ok1 && ok2 && !isUnsigned(t.Type) {
+					return l1 + l2, true
+				}
+			}
+		}
 		if t.Op == token.AND {
 			if isUnsigned(t.Type) {
 				return 0, true
@@ -244,6 +312,28 @@ func (x *Explorer) upperS(t *Term) (int64, bool) {
 			}
 		}
 	case KBin:
+		if t.Op == token.REM {
+			if c, ok := t.Args[1].Int64(); ok && c > 0 {
+				return c - 1, true
+			}
+		}
+		if t.Op == token.SUB {
+			if hi, has := x.upper(t.Args[0]); has {
+				if lo, has2 := x.lower(t.Args[1]); has2 {
+					return hi - lo, true
+				}
+			}
+		}
+		if t.Op == token.ADD || t.Op == token.SUB {
+			if c, ok := t.Args[1].Int64(); ok {
+				if hi, has := x.upper(t.Args[0]); has {
+					if t.Op == token.ADD {
+						return hi + c, true
+					}
+					return hi - c, true
+				}
+			}
+		}
 		if t.Op == token.AND {
 			best, found := int64(0), false
 			for _, a := range t.Args {
@@ -288,6 +378,18 @@ func (x *Explorer) Len(a *Term) *Term {
 			}
 			if lo, ok2 := a.Args[1].Int64(); ok2 {
 				return x.T.Int(hi - lo)
+			}
+		}
+		// x[lo:hi] with hi present: hi - lo ; x[lo:]: len(x) - lo
+		if a.Args[2].Kind != KNone {
+			if a.Args[1].Kind == KNone {
+				return x.stripWiden(a.Args[2])
+			}
+			return x.Bin(token.SUB, x.stripWiden(a.Args[2]), x.stripWiden(a.Args[1]), types.Typ[types.Int])
+		}
+		if a.Args[1].Kind != KNone && a.Args[0].Type != nil {
+			if _, isPtr := a.Args[0].Type.Underlying().(*types.Pointer); !isPtr {
+				return x.Bin(token.SUB, x.Len(a.Args[0]), x.stripWiden(a.Args[1]), types.Typ[types.Int])
 			}
 		}
 		// full slice of an array: its static length
@@ -448,3 +550,11 @@ func isIntegerTerm(t *Term) bool {
 	b, ok := t.Type.Underlying().(*types.Basic)
 	return ok && b.Info()&types.IsInteger != 0
 }
+
+// CapOf builds cap(a).
+func (x *Explorer) CapOf(a *Term) *Term {
+	return x.T.mk(Term{Kind: KCap, Args: []*Term{a}, Type: types.Typ[types.Int]})
+}
+
+// StripWiden exposes the canonical form used inside comparisons.
+func (x *Explorer) StripWiden(t *Term) *Term { return x.stripWiden(t) }
